@@ -153,10 +153,19 @@ def prompt(sid):
         mp = os.path.join(sd, e, "meta.json")
         if e.startswith(pid) and os.path.exists(mp):
             earlier.append("  - " + json.load(open(mp)).get("summary", "")[:400])
+    others = []
+    for e in sorted(os.listdir(sd)):
+        mp = os.path.join(sd, e, "meta.json")
+        if not e.startswith(pid) and os.path.exists(mp):
+            m = json.load(open(mp))
+            others.append("  - %s: %s" % (", ".join(os.path.basename(f) for f in m.get("files_changed", [])[:2]), m.get("summary", "")[:170].replace("\n", " ")))
     extra = ""
     if earlier:
         extra = ("\nAdditional constraints: earlier experiments already made the following changes for this property; do NOT repeat them or close variants (same function, same line):\n"
                  + "\n".join(earlier) + "\n" + KINDS + "\n")
+    if others:
+        extra += ("Changes made in experiments for OTHER properties (for your information: do not produce the same change again, even if it would also break your property):\n"
+                  + "\n".join(others) + "\n\n")
     wt, out = "/tmp/seed/" + sid, "/tmp/seed/" + sid + "-out"
     os.makedirs(out, exist_ok=True)
     if not os.path.exists(wt):
